@@ -675,8 +675,8 @@ where
 		};
 		match send_args {
 			Some(sa) => {
-				let tor_config_lock = self.tor_config.lock();
-				let tc = tor_config_lock.clone();
+				// take a copy and release the lock: the calls below lock the wallet
+				let tc = self.tor_config.lock().clone();
 				let tc = match tc {
 					Some(mut c) => {
 						c.skip_send_attempt = Some(skip_tor);
